@@ -263,6 +263,7 @@ def s1_group(src, static_member):
     stop_at = [0.004, 0.012, 0.05, 0.31, 0.33, 0.45, 0.9][src.choice("stop_at", 7)]
     mode_at = [0.0, 0.2, 0.32][src.choice("mode_at", 3)]
     autocommit = src.flag("auto_commit")
+    slow_sync = [0.0, 0.25][src.choice("sync_group_reply_takes", 2)]  # stop() may arrive while SyncGroup is unanswered
     # one coordinator reply that a rebalance in progress legitimately produces, given to A's first such request
     # ... SyncGroup of the first join / SyncGroup of the re-join caused by B / first Heartbeat (JoinGroup never gets 27)
     gfault = [None, (14, 27, 1), (14, 27, 2), (12, 27, 1)][src.choice("rebalance_in_progress_reply_to", 4)]
@@ -284,6 +285,7 @@ def s1_group(src, static_member):
             return None
         run.cluster.fault_fn = fault_fn
         await a.start()
+        run.cluster.sync_delay = slow_sync
         t0 = loop.time()
         loop.call_later(0.3, lambda: asyncio.ensure_future(b.start()))  # rebalance around 0.3
         loop.call_later(mode_at, _apply_mode, run.cluster, mode)
@@ -336,7 +338,7 @@ def s1_group(src, static_member):
     out = groupsim.run_group(src, cfg, scenario, max_vtime=400)
     run = out["run"]
     res = getattr(run, "res", {})
-    info = dict(mode=mode, stop_at=stop_at, mode_at=mode_at, auto_commit=autocommit, static=static_member, group_fault=str(gfault))
+    info = dict(mode=mode, stop_at=stop_at, mode_at=mode_at, auto_commit=autocommit, static=static_member, group_fault=str(gfault), slow_sync=slow_sync)
     src.note({**info, **{k: v for k, v in res.items() if k not in ("left", "leave")}})
     ok = bool(res.get("stop_returned")) and "deadlock" not in out
     if src.twin:
@@ -408,6 +410,94 @@ def u1_conn_idle(src):
     src.check(not res["tasks"], "reader task still alive after close()", tasks=res["tasks"][:2])
 
 
+class _FakeTransport(asyncio.Transport):
+    def __init__(self, loop, protocol):
+        super().__init__()
+        self._loop, self._protocol = loop, protocol
+        self.written = bytearray()
+        self.closed = False
+
+    def write(self, data):
+        self.written += bytes(data)
+
+    def is_closing(self):
+        return self.closed
+
+    def close(self):
+        if not self.closed:
+            self.closed = True
+            self._loop.call_soon(self._protocol.connection_lost, None)
+
+    def abort(self):
+        self.close()
+
+    def get_extra_info(self, name, default=None):
+        return default
+
+    def get_write_buffer_size(self):
+        return 0
+
+
+def u2_connect_interrupted(src):
+    """the real AIOKafkaConnection.connect() over an in-memory transport: while the ApiVersions / SASL exchange
+    of a new connection is unanswered the connecting task is cancelled (stop() of the owning client), times out,
+    or the broker hangs up: nothing of the half-made connection may stay behind"""
+    from aiokafka.conn import AIOKafkaConnection
+    how = ["cancelled", "request_timeout", "eof", "answered"][src.choice("handshake_ends_by", 4)]
+    idle = src.flag("idle_timer_configured")
+    res = {}
+
+    async def main(loop):
+        made = []
+
+        async def create_connection(factory, host, port, ssl=None, **kw):
+            proto = factory()
+            tr = _FakeTransport(loop, proto)
+            made.append((tr, proto))
+            proto.connection_made(tr)
+            return tr, proto
+        loop.create_connection = create_connection
+        conn = AIOKafkaConnection("fake", 9092, request_timeout_ms=500, max_idle_ms=1000 if idle else None)
+        t = asyncio.ensure_future(conn.connect())
+        for _ in range(50):
+            if made and made[0][0].written:
+                break
+            await asyncio.sleep(0.001)
+        res["request_written"] = bool(made and made[0][0].written)
+        if how == "cancelled":
+            t.cancel()
+        elif how == "eof":
+            made[0][1].eof_received()
+            made[0][1].connection_lost(None)
+        elif how == "answered":
+            # ApiVersions v0 reply: correlation id of the request, error 0, empty array
+            import struct
+            w = bytes(made[0][0].written)
+            cid = struct.unpack_from(">i", w, 8)[0]
+            body = struct.pack(">ihi", cid, 0, 0)
+            made[0][1].data_received(struct.pack(">i", len(body)) + body)
+        done, _ = await asyncio.wait([t], timeout=5)
+        res["returned"] = bool(done)
+        res["outcome"] = ("cancelled" if t.cancelled() else (type(t.exception()).__name__ if t.exception() else "connected")) if done else "pending"
+        if done and not t.cancelled() and t.exception() is None:
+            conn.close()
+        await vloop.settle(10)
+        await asyncio.sleep(1.5)
+        res["transport_closed"] = made[0][0].closed if made else None
+        res["reader_none"] = conn._reader is None
+        res["tasks"] = [str(x.get_coro())[:100] for x in vloop.library_tasks(loop)]
+        res["timers"] = [str(h)[:120] for h in loop.live_timers() if "/verif/" not in str(h)]
+
+    vloop.run(main, max_vtime=100)
+    info = dict(how=how, idle_timer=idle, observed={k: v for k, v in res.items()})
+    src.note(info)
+    src.check(res.get("returned"), "connect() neither returned nor failed within 5 s", **info)
+    ok = bool(res.get("transport_closed")) and not res.get("tasks") and not res.get("timers")
+    if src.twin:
+        ok = not ok
+    src.check(ok, "a connection whose set-up was interrupted (or that was closed right after) leaves its socket, reader task or idle timer behind", **info)
+
+
 def harnesses(tier):
     q = tier == "quick"
     hs = [Harness(name=f"S1_producer_{n}sends", fn=s1_producer, params={"nsends": n},
@@ -434,6 +524,11 @@ def harnesses(tier):
                           symbolic_vars="choices: cluster mode, time of the mode switch, auto-commit on/off, stop() at 7 points (before/while joining, mid-rebalance caused by a second member, stable)",
                           bounds={"stop_points": 7, "modes": MODES}, stubs=["SimConn + simulated group coordinator", "virtual-time loop"],
                           max_seconds=600, twin_max_paths=50))
+    hs.append(Harness(name="U2_connect_interrupted", fn=u2_connect_interrupted,
+                      functions=[AIOKafkaConnection.connect, AIOKafkaConnection.close], shape="U",
+                      symbolic_vars="choices: how the version handshake of a new connection ends (cancelled / request timeout / EOF / answered), idle timer configured or not",
+                      bounds={"connections": 1}, stubs=["loop.create_connection returns an in-memory transport", "virtual-time loop"],
+                      max_seconds=120, twin_max_paths=20))
     hs.append(Harness(name="U1_conn_idle_timer", fn=u1_conn_idle, functions=[AIOKafkaConnection._idle_check, AIOKafkaConnection.close],
                       shape="U", symbolic_vars="choices: request in flight or not, time before close()",
                       bounds={"waits": [0.0, 0.6, 1.1, 2.3]}, stubs=["in-memory transport", "virtual-time loop"]))
